@@ -229,12 +229,14 @@ class Run:
         self.last_obs = None                                # last table rendered into the Coq literal
         self.held = []                                      # (frame handed out by a read, deep copy taken then)
         self.flags = (False, False)                         # expected (creating, adding)
+        self.first = True                                   # no population yet
         self.home = {}                                      # dtype of each column before the current creation's reindex
         self.pending = None                                 # scripts of the creation in progress
         self.creation = None
         self.tags = set()
         self.modellable = True
         self.n_updates = 0
+        self.finalized, self.stepped, self.cur_event = False, False, None
         self.sim = None
         self.views = []
         self.inside = {}
@@ -249,16 +251,39 @@ class Run:
             self.ok = False
         self.msgs.append(("[F-L class] " if fl else "[big-int class] " if fs else "") + msg)
 
+    def manager(self):
+        """the population manager, looked up BY TYPE among the context's attributes (no private name relied upon)"""
+        try:
+            from vivarium.framework.population.manager import PopulationManager
+            ms = [v for v in vars(self.sim).values() if isinstance(v, PopulationManager)]
+            return ms[0] if len(ms) == 1 else None
+        except Exception:
+            return None
+
     def table(self):
-        return snap(self.sim.get_population(untracked=True))
+        try:
+            return snap(self.sim.get_population(untracked=True))
+        except Exception as e:
+            from vivarium.framework.lifecycle import LifeCycleError
+            if not isinstance(e, LifeCycleError):
+                raise
+            # before population_creation the context's accessor is refused by the life cycle: ask the manager's public
+            # method; if the manager cannot be found and nothing has been created yet the table is empty
+            m = self.manager()
+            if m is not None:
+                return snap(m.get_population(True))
+            if self.first:
+                return {"labels": [], "cols": {}}
+            raise
 
     def real_flags(self):
         import os
         if os.environ.get("VERIF_POP_NOFLAGS"):               # self-test: observe through public interfaces only
             return None
-        m = getattr(self.sim, "_population", None)            # private attribute: read defensively, cross-check only
+        # cross-check only, never required; anything unexpected -> None (the cross-check is skipped)
         try:
-            return bool(m.creating_initial_population), bool(m.adding_simulants)
+            m = self.manager()
+            return None if m is None else (bool(m.creating_initial_population), bool(m.adding_simulants))
         except Exception:
             return None
 
@@ -875,8 +900,9 @@ class Run:
     def create(self, count, user, plan, initial=False):
         """run one creation through the real creator (or, for the initial one, through the engine)"""
         import pandas as pd
-        B0 = self.table() if not initial else {"labels": [], "cols": {}}
+        B0 = self.table()                 # (no population yet: the empty table)
         first = self.first
+        outer = self.creation
         cr = {"before": B0, "n_before": len(B0["labels"]), "count": count, "plan": plan, "scripts": [], "log": [],
               "mgr_done": False, "first_obs": None, "flat": False}
         self.creation = cr
@@ -888,19 +914,34 @@ class Run:
         code, labels, exc = 0, [], None
         try:
             if initial:
-                self.sim.setup()
+                self.sim.initialize_simulants()     # the engine's own call: creator(population_size, {"sim_state": "setup"})
                 ret = None
             else:
                 arg = None if user is None else ({} if user == 0 else {"tag": user - 10})
                 ret = self.probe0.creator(count, arg) if user is not None else self.probe0.creator(count)
         except Exception as e:
             exc, code, ret = e, 3, None
-        self.creation = None
+        self.creation = outer
         self.first = False
         A = self.table()
+        no_probe_ran = not [e for e in cr["log"] if e["comp"] != "mgr"]
         if not cr["mgr_done"]:
             # never seen done at the entry of a probe: it ran after all probes (or nobody ran after it / it raised)
-            rec = ("mgr", [("mgrupd", list(range(cr["n_before"], cr["n_before"] + count)), "TUnobserved")])
+            new = list(range(cr["n_before"], cr["n_before"] + count))
+            rec = ("mgr", [("mgrupd", new, "TUnobserved")])
+            if code != 0 and no_probe_ran:
+                # the creation was abandoned before any probe was called: the manager's own update raised.  Refused by
+                # the life cycle (requested from a post_setup / simulation_end listener or after the end): the model
+                # cannot know - recorded as ARefused.  Any other exception: the model must predict the rejection itself.
+                from vivarium.framework.lifecycle import LifeCycleError
+                if isinstance(exc, LifeCycleError):
+                    rec = ("mgr", [("refused", self.tobs(A))])
+                    self.tags.add("creation_refused@" + (getattr(self, "cur_event", None) or "outside"))
+                else:
+                    rec = ("mgr", [("mgrfail", new, self.classify(exc), self.tobs(A))])
+                    self.tags.add("creation_mgr_raised")
+                if cr["first_obs"] is None:
+                    self.oracle_reindex(cr, A)          # the rows are there; no existing simulant may have changed
             ent = {"comp": "mgr", "index": list(range(cr["n_before"], cr["n_before"] + count)),
                    "user": 1 if initial else (0 if not user else user),
                    "time": now_t if now_t is not None else -now_s, "step": now_s}
@@ -913,7 +954,7 @@ class Run:
         if code == 0:
             self.flags = (False, False)
             if initial:
-                labels = list(range(count))
+                labels = list(range(cr["n_before"], cr["n_before"] + count))
             else:
                 labels = [int(x) for x in ret]
                 if not isinstance(ret, pd.Index):
@@ -954,6 +995,10 @@ class Run:
     # ---- top-level ops ----
     def run_op(self, op):
         k = op["k"]
+        if self.finalized and not (k == "create" or (k == "act" and op.get("a") == "read")):
+            return                                   # after simulation_end the life cycle refuses updates and steps
+        if k == "step":
+            self.stepped = True
         if k == "act":
             self.cur_owner = None
             try:
@@ -967,6 +1012,14 @@ class Run:
             self.sim.step()
             self.inside = {}
             self.tags.add("step")
+        elif k == "finalize":
+            if self.finalized or not self.stepped:
+                return                               # simulation_end can only follow a completed step, once
+            self.inside = {ev: list(ops) for ev, ops in op.get("inside", {}).items()}
+            self.sim.finalize()
+            self.inside = {}
+            self.finalized = True
+            self.tags.add("finalize")
 
     def on_event(self, ev):
         for op in self.inside.get(ev, []):
@@ -982,6 +1035,10 @@ class Run:
     def coq_act(self, rec):
         if rec[0] == "read":
             return "(ARead, %s)" % rec[1]
+        if rec[0] == "refused":
+            return "(ARefused, %s)" % rec[1]
+        if rec[0] == "mgrfail":
+            return "(AUpdate (VBase [0%%Z]) [0%%Z] (tracked_upd %s) true %s, %s)" % (czlist(rec[1]), cz(rec[2]), rec[3])
         if rec[0] == "mgrupd":
             return "(AUnobserved (VBase [0%%Z]) [0%%Z] (tracked_upd %s), %s)" % (czlist(rec[1]), rec[2])
         _, vcoq, ordc, u, prop, code, tobs = rec
@@ -1052,6 +1109,14 @@ def make_components(run):
             if self.j == 0:
                 run.on_event("collect_metrics")
 
+        def on_post_setup(self, event):
+            if self.j == 0:
+                run.on_event("post_setup")
+
+        def on_simulation_end(self, event):
+            if self.j == 0:
+                run.on_event("simulation_end")
+
     return [Probe(j) for j in range(case["comps"])]
 
 
@@ -1077,9 +1142,16 @@ def execute(case):
         def __getitem__(s, k):
             return probes[k].home if k < case["comps"] else probes[0].extra[k - case["comps"]]
     run.views = LazyViews()
+    from vivarium.framework.engine import SimulationContext
+    run.inside = {"post_setup": list(case.get("post_setup", []))}
+    SimulationContext.setup(sim)          # the engine's setup (post_setup listeners run here), without the population
+    run.inside = {}
     run.create(int(case["n0"]), None, case.get("init", {}), initial=True)
-    for op in case["ops"]:
-        run.run_op(op)
+    if run.trace and run.trace[-1][1].get("code", 0) == 0:
+        for op in case["ops"]:
+            run.run_op(op)
+    else:
+        run.tags.add("initial_creation_raised")      # nothing sensible can follow: the engine never finished its setup
     return run
 
 
@@ -1234,8 +1306,25 @@ def gen_program(rng, emphasis):
 
     n0 = rng.choice([0, 1, 2, 3, 3, 4, 5, 6, 8, 12])
     nops = rng.randint(1, 15) if emphasis == "update" else rng.randint(1, 9)
-    return {"n0": n0, "comps": comps, "cols": cols, "reqs": reqs, "views": views, "step_days": rng.choice([1, 1, 2, 7]),
-            "init": {str(j): init_script(j) for j in range(comps)}, "ops": [top_op() for _ in range(nops)]}
+    ops = [top_op() for _ in range(nops)]
+    post = []
+    # creations where the life cycle refuses the manager's own update: from a post_setup listener (before the initial
+    # population: the engine's own creation then meets a half-made table), from a simulation_end listener, and from
+    # outside once the simulation has ended.  Refused, but NOT inert: rows added, flags left set.
+    if rng.random() < (0.10 if emphasis == "create" else 0.03):
+        post = [creation(zero=0.5)]
+    if rng.random() < (0.20 if emphasis == "create" else 0.06):
+        if not any(op["k"] == "step" for op in ops):
+            ops.append({"k": "step", "inside": {}})
+        ops.append({"k": "finalize", "inside": {"simulation_end": [creation() for _ in range(rng.randint(1, 2))]}})
+        ops += [creation() for _ in range(rng.randint(0, 2))]
+        if rng.random() < 0.5:
+            ops.append(dict(action("read", view=0), k="act"))
+    case = {"n0": n0, "comps": comps, "cols": cols, "reqs": reqs, "views": views, "step_days": rng.choice([1, 1, 2, 7]),
+            "init": {str(j): init_script(j) for j in range(comps)}, "ops": ops}
+    if post:
+        case["post_setup"] = post
+    return case
 
 
 def run_program(case):
@@ -1350,6 +1439,18 @@ def corpus_creations():
                                                              {"k": "create", "count": 3, "user": 11, "scripts": {"0": [_a("fill", 0)]}}],
                                                "collect_metrics": [_top(_a("untrack", 0)), {"k": "create", "count": 1, "user": 12, "scripts": {"0": [_a("fill", 0)]}}]}},
                       _top(_a("ok", 0))], n0=0))
+    # creations the life cycle refuses: from a simulation_end listener and afterwards from outside (rows added, values
+    # kept, columns left promoted, flags left set); from a post_setup listener (count 0: harmless; count 2: the engine's
+    # own initial creation then fails on the half-made table)
+    birth = lambda n, u=None: {"k": "create", "count": n, "user": u, "scripts": {"0": [_a("fill", 0)]}}
+    out.append(_base([{"k": "step", "inside": {}}, {"k": "finalize", "inside": {"simulation_end": [birth(2, 10), birth(0)]}}, birth(1, 11),
+                      _top(_a("read", 0))]))
+    c = _base([birth(1), _top(_a("ok", 0))])
+    c["post_setup"] = [birth(0, 10)]
+    out.append(c)
+    c = _base([birth(1)])
+    c["post_setup"] = [birth(2, 12)]
+    out.append(c)
     # two components; the second repeats the first's columns (equal: accepted with its own; conflicting: refused)
     cols2 = [[1, "float", 0], [2, "int", 0], [3, "str", 1], [4, "bool", 1]]
     out.append(_base([{"k": "create", "count": 2, "user": 10, "scripts": {"0": [_a("fill", 0)], "1": [_a("fill", 1)]}}], cols=cols2, comps=2,
@@ -1564,3 +1665,77 @@ def run_edge(case):
                  obs={"log": log[:12], "oracle": (msgs + fz)[:3]}, tags=tuple(sorted(tags)))
     res.fs_only = bool(fz) and not msgs
     return res
+
+
+# ----------------------------------------------------------------------------------------------------------------
+# shrinking (core._shrink keeps any variant on which the direct oracle still fails)
+# ----------------------------------------------------------------------------------------------------------------
+def _op_lists(case):
+    """every list that holds operations: the top-level history and the lists run by listeners inside a step"""
+    yield case["ops"]
+    if case.get("post_setup"):
+        yield case["post_setup"]
+    for op in case["ops"]:
+        if op.get("k") in ("step", "finalize"):
+            for lst in op.get("inside", {}).values():
+                yield lst
+
+
+def shrink_program(case):
+    """smaller variants of a program: drop an operation (top level / inside a step), drop an action of an initializer
+    script, lower a count, shrink the initial population, drop a column, a view, a requirement"""
+    import copy
+
+    def variant(edit):
+        c = copy.deepcopy(case)
+        try:
+            edit(c)
+        except Exception:
+            return None
+        return c
+
+    out = []
+    n_lists = len(list(_op_lists(case)))
+    for li in range(n_lists):
+        lst = list(_op_lists(case))[li]
+        for i in range(len(lst)):
+            out.append(variant(lambda c, li=li, i=i: list(_op_lists(c))[li].__delitem__(i)))
+    for li in range(n_lists):
+        lst = list(_op_lists(case))[li]
+        for i, op in enumerate(lst):
+            if op.get("k") == "create":
+                for j, sc in op.get("scripts", {}).items():
+                    for a in range(len(sc)):
+                        out.append(variant(lambda c, li=li, i=i, j=j, a=a: list(_op_lists(c))[li][i]["scripts"][j].__delitem__(a)))
+                if op.get("count", 0) > 0:
+                    for k in sorted({0, op["count"] - 1}):
+                        out.append(variant(lambda c, li=li, i=i, k=k: list(_op_lists(c))[li][i].__setitem__("count", k)))
+                if op.get("user") is not None:
+                    out.append(variant(lambda c, li=li, i=i: list(_op_lists(c))[li][i].__setitem__("user", None)))
+    for j, sc in case.get("init", {}).items():
+        for a in range(len(sc)):
+            out.append(variant(lambda c, j=j, a=a: c["init"][j].__delitem__(a)))
+    if case["n0"] > 0:
+        for k in sorted({case["n0"] // 2, case["n0"] - 1}):
+            out.append(variant(lambda c, k=k: c.__setitem__("n0", k)))
+    if len(case["cols"]) > 1:
+        for i in range(len(case["cols"])):
+            out.append(variant(lambda c, i=i: c["cols"].__delitem__(i)))
+    if len(case["views"]) > 1:
+        out.append(variant(lambda c: c["views"].pop()))
+    if case.get("reqs"):
+        out.append(variant(lambda c: c.__setitem__("reqs", [])))
+    if case.get("step_days", 1) != 1:
+        out.append(variant(lambda c: c.__setitem__("step_days", 1)))
+    for c in out:
+        if c is not None and c != case:
+            yield c
+
+
+def shrink_edge(case):
+    import copy
+    for k in ("n0", "count", "inner", "steps"):
+        if case.get(k, 0) > 0:
+            c = copy.deepcopy(case)
+            c[k] = case[k] - 1
+            yield c
